@@ -61,7 +61,13 @@ func mutate(r *rng.R, obj client.Object, namespaces []string) (client.Object, st
 			return x, "svc-add-port"
 		}
 		i := r.Intn(len(x.Spec.Ports))
-		if r.Chance(18, 100) {
+		hasUDP := false
+		for _, sp := range x.Spec.Ports {
+			if sp.Protocol == apiv1.ProtocolUDP && sp.Port == x.Spec.Ports[i].Port {
+				hasUDP = true
+			}
+		}
+		if x.Spec.Ports[i].Protocol != apiv1.ProtocolUDP && !hasUDP && r.Chance(18, 100) {
 			// same port number for a second protocol (53/TCP + 53/UDP): fewer distinct (port,targetPort) pairs than entries
 			dup := x.Spec.Ports[i]
 			dup.Name, dup.Protocol = dup.Name+"-udp", apiv1.ProtocolUDP
